@@ -116,7 +116,10 @@ def msgs_arm(d, T):
                 nconst += 1
                 b = 'format!("{:#?}", B%d)' % nconst
             else:
-                b = 'format!("{:#?}", %s)' % val_src(d, r["b"])
+                lit = val_src(d, r["b"])
+                if fam in ("int", "float") and not lit.endswith(")"):
+                    lit = "(%s%s)" % (lit, d["ty"]) if not lit.startswith("-") else "(-%s%s)" % (lit[1:], d["ty"])
+                b = 'format!("{:#?}", %s)' % lit
         else:
             b = "String::new()"
         pm = "String::new()"
@@ -231,6 +234,21 @@ def observer_arms(d, T, validated):
             'let mx = ts.iter().cloned().max().map(|t| t.into_inner()); '
             'json!({"k": "ok", "sorted": v.into_iter().map(|t| t.into_inner()).collect::<Vec<_>>().enc(), '
             '"set": set.into_iter().map(|t| t.into_inner()).collect::<Vec<_>>().enc(), "max": mx.enc()}) }), json!({"made": made.enc()})) }' % (T, T))
+    # ---- arbitrary (C09, C14)
+    if has(d, "Arbitrary"):
+        arms.append(
+            '"arb" => { let bytes: Vec<u8> = inp.as_array().unwrap().iter().map(|b| b.as_u64().unwrap() as u8).collect(); '
+            '(with_timeout(3000, move || { let mut u = ::arbitrary::Unstructured::new(&bytes); '
+            'match <%s as ::arbitrary::Arbitrary>::arbitrary(&mut u) { Ok(t) => ok(t.into_inner().enc()), Err(_) => json!({"k": "aerr"}) } }), Value::Null) }' % T)
+        if fam == "int":
+            arms.append(
+                '"arb_cover" => { let mut got: Vec<i128> = Vec::new(); let (mut oks, mut errs, mut panics) = (0u64, 0u64, 0u64); let mut witness = Value::Null; '
+                'let mut one = |bytes: &[u8]| { let mut u = ::arbitrary::Unstructured::new(bytes); '
+                'let r = ::std::panic::catch_unwind(::std::panic::AssertUnwindSafe(|| <%s as ::arbitrary::Arbitrary>::arbitrary(&mut u).map(|t| t.into_inner()))); '
+                'match r { Ok(Ok(v)) => { oks += 1; got.push(v as i128); } Ok(Err(_)) => errs += 1, Err(_) => { panics += 1; if witness.is_null() { witness = json!(bytes); } } } }; '
+                'one(&[]); for a in 0..=255u8 { one(&[a]); } for a in 0..=255u8 { for b in 0..=255u8 { one(&[a, b]); } } '
+                'let runs: Vec<Value> = runs_i128(got).into_iter().map(|(lo, hi)| json!([lo.to_string(), hi.to_string()])).collect(); '
+                '(json!({"k": "obs", "runs": runs, "oks": oks, "errs": errs, "panics": panics, "witness": witness}), Value::Null) }' % T)
     # ---- ser / deser
     if serde_ok:
         arms.append(
